@@ -130,7 +130,7 @@ class Arm(Robot):
         else:
             self._joint_homes_global = [tm()]
             for i in range(joint_poses_home.shape[1]):
-                self._joint_homes_global.append(
+                self._joint_homes_global.append(base_pos_global @
                         tm([joint_poses_home[0][i],
                             joint_poses_home[1][i],
                             joint_poses_home[2][i], 0, 0, 0]))
